@@ -20,6 +20,17 @@ def d1(s, e, os, oe):
     return If(Max(s, os) < Min(e, oe), 0, Min(Abs(s - oe), Abs(e - os)))
 
 
+def _end_of(i):
+    """largest block end of the receiver: the invariant's ``end`` term symbolically, max over the blocks natively."""
+    n = i.V.n
+    if isinstance(n, int):
+        m = i.V.E(0)
+        for j in range(1, n):
+            m = Max(m, i.V.E(j))
+        return m
+    return i.self.end
+
+
 def _is_compound(v):
     return class_name(v) == "CompoundInterval"
 
@@ -128,8 +139,9 @@ class CDistanceSingle(Case):
                 ExistsRange(0, i.V.n, lambda j: _rv(r) == d1(i.V.S(j), i.V.E(j), i.os, i.oe), witness=_witness(i)))),
         "end-point-forms": lambda i, r: And(
             Implies(enum_name_is(i.dt, "STARTS"), _rv(r) == Abs(i.V.S(0) - i.os)),
-            Implies(enum_name_is(i.dt, "ENDS"), _rv(r) == Abs(i.V.E(i.V.n - 1) - i.oe)),
-            Implies(enum_name_is(i.dt, "OUTER"), _rv(r) == Max(Abs(i.V.S(0) - i.oe), Abs(i.V.E(i.V.n - 1) - i.os)))),
+            # 'end' = the largest block end (class invariant: upper bound of every block end that is attained)
+            Implies(enum_name_is(i.dt, "ENDS"), _rv(r) == Abs(_end_of(i) - i.oe)),
+            Implies(enum_name_is(i.dt, "OUTER"), _rv(r) == Max(Abs(i.V.S(0) - i.oe), Abs(_end_of(i) - i.os)))),
         "an-int-and-non-negative": lambda i, r: And(_is_int(r), _rv(r) >= 0),
     }
 
